@@ -19,13 +19,13 @@ CHECKS = {
     "C18": {
         "level": "exploration",
         "technique": "transcript equality across RAYON_NUM_THREADS in {1,2,4,16} (separate processes) + shared-instance monitor (2..64 threads, &RLN and FFI *const RLN, results vs sequential twins, observed call-kind overlaps) + storm of cheap pure calls (2..16 threads over a few related inputs, compared with from-spec reference values, overlap measured) + fresh-process first-use races + recreate loop (also while the previous instance is still alive); ThreadSanitizer/AddressSanitizer builds in thorough",
-        "text": "Four processes with different rayon pool sizes run the same workload (24 batch updates on a persistent tree plus structured batches with mirrored pairs, equal subtrees and default values, witnesses, proof values, proofs with verdicts, a fixed corpus of valid/tampered/truncated messages) and must produce the same transcript hash; 85 read-only queries of every kind are answered sequentially and then issued at random by 2..64 threads from a start barrier on one shared instance (also through the FFI), every result compared with its sequential twin; 1.8 M (quick) / 18 M (thorough) Poseidon / hash-to-field / seeded-keygen calls from 2..16 threads walking over the same eight related inputs are compared with reference values (a race window of nanoseconds needs this call density); fresh processes race the first use of the lazy globals; 60..600 create-write-flush-drop-create cycles on one storage location must open with the model's state (latency and lock retries reported). Thorough repeats the shared-instance and batch workloads under TSan (reports attributed to repository frames only; dependency-internal reports listed) and the FFI variant under ASan.",
+        "text": "Four processes with different rayon pool sizes run the same workload (24 batch updates on a persistent tree plus structured batches with mirrored pairs, equal subtrees and default values, witnesses, proof values, proofs with verdicts, a fixed corpus of valid/tampered/truncated messages) and must produce the same transcript hash; 85 read-only queries of every kind are answered sequentially and then issued at random by 2..64 threads from a start barrier on one shared instance (also through the FFI), every result compared with its sequential twin; 1.8 M (quick) / 18 M (thorough) Poseidon / hash-to-field / seeded-keygen calls from 2..16 threads walking over the same eight related inputs are compared with reference values (a race window of nanoseconds needs this call density); the bundled witness graph and a variant are evaluated by 8 threads at once; fresh instances get their very first calls from 8 barrier-released threads; fresh processes race the first use of the lazy globals; 60..600 create-write-flush-drop-create cycles on one storage location must open with the model's state (latency and lock retries reported). Thorough repeats the shared-instance and batch workloads under TSan (reports attributed to repository frames only; dependency-internal reports listed) and the FFI variant under ASan.",
         "note": "Schedules are sampled. TSan does not model sled's stand-alone fences: reports whose stacks are entirely inside sled/crossbeam/rayon are suppressed but counted.",
     },
     "C16": {
         "level": "fault_enumeration",
         "technique": "fault enumeration with a cfg(zerokit_verif) fail-after-N storage hook (every put/put_batch/flush of each short history fails once) + reopen monitor against the ideal model + SIGKILL crash points of a writer process + reopen while another process holds the storage lock + real write failures via RLIMIT_FSIZE",
-        "text": "For short generated histories through RLN on persistent trees the harness counts the storage operations of an unarmed run and replays the history once per storage operation with the fault armed there (exhaustive for these histories): the API call hit must return Err, earlier calls keep their results, and after disarm+flush+drop+reopen every leaf, the leaf count and the metadata acknowledged before the failed call must be readable. Longer histories are flushed, dropped and reopened at four points under 6 storage configurations and 4 path styles and must equal the model, which the reopened tree keeps following. A writer process is SIGKILLed after an acknowledged flush - two thirds of the kills at a quiescent point right after the acknowledgement, enumerating the kind of update segment the flush closed (mixed, batch-only without growth, single-leaf-only, metadata-only, batch-then-delete) x depth x configuration, the rest in flight 0..120 ms later - and the recovered state must contain everything acknowledged. Reopen is attempted while another process holds the lock for 10..500 ms. A writer process whose RLIMIT_FSIZE is lowered after its first acknowledged flush makes sled's writes really fail (EFBIG): nothing may panic and everything reported successful and flushed must be readable after reopen. Known finding: reset on a persistent instance.",
+        "text": "For short generated histories through RLN on persistent trees the harness counts the storage operations of an unarmed run and replays the history once per storage operation with the fault armed there (exhaustive for these histories): the API call hit must return Err, earlier calls keep their results, and after disarm+flush+drop+reopen every leaf, the leaf count and the metadata acknowledged before the failed call must be readable. Longer histories are flushed, dropped and reopened at four points under 6 storage configurations and 4 path styles and must equal the model, which the reopened tree keeps following. A writer process is SIGKILLed after an acknowledged flush - two thirds of the kills at a quiescent point right after the acknowledgement, enumerating the kind of update segment the flush closed (mixed, batch-only without growth, single-leaf-only, metadata-only, batch-then-delete) x depth x configuration, the rest in flight 0..120 ms later - and the recovered state must contain everything acknowledged. Reopen is attempted while another process holds the lock for 10..500 ms. Every other injected fault position repeats the refused call with faults off: if it is acknowledged, leaves, count, metadata and root must equal the model after flush + reopen (known finding: leaf count not persisted again after its persisting write failed once - vacp2p_pmtree). A writer process whose RLIMIT_FSIZE is lowered after its first acknowledged flush makes sled's writes really fail (EFBIG): nothing may panic and everything reported successful and flushed must be readable after reopen. Known finding: reset on a persistent instance.",
         "note": "Trusted: the hook returns the adapter's own error value at the entry of put/put_batch/close (same path as a failing sled call); the effect of the failed/in-flight operation is excluded; SIGKILL is a process crash, not a power failure.",
     },
     "C17": {
@@ -48,13 +48,13 @@ CHECKS = {
     },
     "C12": {
         "level": "exploration",
-        "technique": "outcome classifier {Ok+verifies, Ok+fails, Err, panic} over hostile proving requests, with rln.wasm partitioning well-formed requests into satisfiable/unsatisfiable",
-        "text": "generate_rln_proof, generate_rln_proof_with_witness and prove (and, for malformed Merkle paths, the typed route: a witness decoded from an independently built JSON form handed to protocol::generate_proof / proof_values_from_witness) are driven with message ids at/above the limit, limits outside the circuit window, positions outside the tree, requests truncated at every length, oversized declared lengths and vector counts, witnesses with wrong path lengths / non-binary directions / trailing bytes, and random bytes; a returned message must verify (raw, carried root, same tree for members), unsatisfiable requests must be errors, and no call may panic. Known finding: limits above 2^16 outside the circuit window.",
+        "technique": "outcome classifier {Ok+verifies, Ok+fails, Err, panic} over hostile proving requests, with rln.wasm partitioning well-formed requests into satisfiable/unsatisfiable; workload repeated on a build with integer-overflow checks on",
+        "text": "generate_rln_proof, generate_rln_proof_with_witness and prove (and, for malformed Merkle paths, the typed route: a witness decoded from an independently built JSON form handed to protocol::generate_proof / proof_values_from_witness) are driven with message ids at/above the limit, limits outside the circuit window, positions outside the tree, requests truncated at every length, oversized declared lengths and vector counts, witnesses with wrong path lengths / non-binary directions / trailing bytes, and random bytes; a returned message must verify (raw, carried root, same tree for members), unsatisfiable requests must be errors, and no call may panic - on the ordinary optimised build and on a build with integer-overflow checks on. Known finding: limits above 2^16 outside the circuit window.",
         "note": "Trusted: rln.wasm as the satisfiability oracle. Err on a satisfiable request is not a violation here (C01 decides completeness).",
     },
     "C13": {
         "level": "exploration",
-        "technique": "crash monitor (catch_unwind) + alias monitor over hostile inputs to verify, verify_rln_proof, verify_with_roots (both arguments) and recover_id_secret (both arguments)",
+        "technique": "crash monitor (catch_unwind) + alias monitor over hostile inputs to verify, verify_rln_proof, verify_with_roots (both arguments) and recover_id_secret (both arguments), run on the optimised build and on a build with integer-overflow checks on",
         "text": "Every truncation length of a valid verification request, boundary declared signal lengths (incl. values that overflow offsets), field and proof replacement by fills/non-canonical values, compressed-point flag patterns, root lists of every length 0..100, over-long inputs and thousands of random or prefix-preserving byte strings are handed to all entry points; any panic is a violation; each alias v + k*p (k = 1..5) of each public value, alone and in pairs, must not be accepted.",
         "note": "Trusted: catch_unwind sees panics only (aborts are covered by the FFI child-process leg of C11). Trailing bytes after a well-formed request are driven for crash-freedom only.",
     },
@@ -120,13 +120,13 @@ CHECKS = {
     },
     "C20": {
         "level": "exploration",
-        "technique": "random-program differential monitor: generated witness graphs evaluated by zerokit (serialize -> calc_witness, graph::evaluate) vs big-integer reference interpreter; storage round-trip equality",
+        "technique": "random-program differential monitor: generated witness graphs evaluated by zerokit (serialize -> calc_witness, graph::evaluate) vs big-integer reference interpreter; storage round-trip equality; workload repeated on a build with integer-overflow checks on",
         "text": "Tens of thousands of random well-formed DAGs (all supported operators, 1..5000 nodes, repeated outputs, arbitrary input layouts, three node layouts incl. scattered Input nodes) are serialised, deserialised (equality) and evaluated through both paths on boundary-heavy and random assignments with shuffled named inputs; outputs are compared with a node-by-node reference interpretation; divergences are localised to the first differing node.",
         "note": "Trusted: circomref semantics (shared with C19). Graphs referencing undeclared input positions are not generated (undefined by the statement).",
     },
     "C19": {
         "level": "exploration",
-        "technique": "differential runtime monitor: both graph evaluators vs big-integer reference of circom semantics over the full boundary grid (all pairs) + random operands, panics caught",
+        "technique": "differential runtime monitor: both graph evaluators vs big-integer reference of circom semantics over the full boundary grid (all pairs) + random operands, panics caught; workload repeated on a build with integer-overflow checks on",
         "text": "Every operator of eval and eval_fr is executed on all pairs of the statement's boundary grid (750 values in thorough, 60 in quick), exhaustive shift counts around 0..260 / p-260..p-1 / p/2, all triples of a 12-value grid for the ternary, and random operands; each result is compared with an independent big-integer implementation of circom's documented semantics; panics are violations. Exhaustive on the stated grid, sampled beyond it.",
         "note": "Trusted: the reference semantics transcription (circom docs + reference field library behaviour for reverse shifts), num-bigint. Pow/Id are outside eval_fr's accepted operators.",
     },
